@@ -395,6 +395,7 @@ impl ShellVariable {
         }
 
         let treat_as_int = self.is_treated_as_integer();
+        let update_transform = self.get_update_transform();
         let value = self.convert_value_str_for_assignment(value);
 
         match &mut self.value {
@@ -412,6 +413,8 @@ impl ShellVariable {
                     } else {
                         new_value = existing_value.to_owned();
                         new_value.push_str(value.as_str());
+                        // The case attributes apply to the whole resulting element.
+                        Self::apply_value_transforms(&mut new_value, false, update_transform);
                     }
 
                     arr.insert(key, new_value);
@@ -433,6 +436,8 @@ impl ShellVariable {
                     } else {
                         new_value = existing_value.to_owned();
                         new_value.push_str(value.as_str());
+                        // The case attributes apply to the whole resulting element.
+                        Self::apply_value_transforms(&mut new_value, false, update_transform);
                     }
 
                     arr.insert(array_index, new_value.clone());
